@@ -7,9 +7,11 @@ package main
 
 import (
 	"fmt"
+	"reflect"
 	"sort"
 	"strconv"
 	"strings"
+	"unsafe"
 
 	"verifharness/hx"
 
@@ -63,6 +65,88 @@ func b2s(b bool) string {
 	}
 
 	return "false"
+}
+
+// ---- the update-id counter ---------------------------------------------------------------------------------------
+
+// uidCounter finds the object's `uniqueUpdateID` field (through the embedded readableVariable / readableSet / the
+// Variable[bool] inside an Event) and returns it as a settable value of its declared width.
+func uidCounter(obj any) (reflect.Value, bool) {
+	var find func(v reflect.Value, depth int) (reflect.Value, bool)
+	find = func(v reflect.Value, depth int) (reflect.Value, bool) {
+		if depth > 6 || !v.IsValid() {
+			return reflect.Value{}, false
+		}
+		switch v.Kind() {
+		case reflect.Ptr, reflect.Interface:
+			if v.IsNil() {
+				return reflect.Value{}, false
+			}
+
+			return find(v.Elem(), depth+1)
+		case reflect.Struct:
+			if f := v.FieldByName("uniqueUpdateID"); f.IsValid() && f.CanAddr() && f.Kind() >= reflect.Uint && f.Kind() <= reflect.Uint64 {
+				return reflect.NewAt(f.Type(), unsafe.Pointer(f.UnsafeAddr())).Elem(), true
+			}
+			for i := 0; i < v.NumField(); i++ {
+				if v.Type().Field(i).Anonymous {
+					if f, ok := find(v.Field(i), depth+1); ok {
+						return f, true
+					}
+				}
+			}
+		}
+
+		return reflect.Value{}, false
+	}
+
+	return find(reflect.ValueOf(obj), 0)
+}
+
+func (w *seqWorld) obj() any {
+	switch w.kind {
+	case "set":
+		return w.set
+	case "var":
+		return w.vr
+	case "event":
+		return w.ev
+	}
+
+	return nil
+}
+
+// idle stands for n calls of a mutating method that change nothing (Add of a present element / Delete of an absent
+// one): each consumes one update id and notifies nobody.  The first few are really made (and checked to do exactly
+// that); the rest is what they amount to: the counter advanced by their number, in the counter's own arithmetic.
+func (w *seqWorld) idle(r *hx.Run, op string, n uint64) string {
+	c, ok := uidCounter(w.set)
+	if !ok {
+		return "no-counter"
+	}
+	real := uint64(20)
+	if n < real {
+		real = n
+	}
+	for i := uint64(0); i < real; i++ {
+		before := c.Uint()
+		var changed bool
+		if cur := w.set.ToSlice(); len(cur) > 0 {
+			changed = w.set.Add(cur[0])
+		} else {
+			changed = w.set.Delete(0)
+		}
+		mask := ^uint64(0) >> (64 - uint(c.Type().Bits()))
+		if changed || len(w.delivered) != 0 || c.Uint() != (before+1)&mask {
+			r.Fail("idle-call", fmt.Sprintf("op %q: a call without effect reported a change / notified somebody / did not consume exactly one update id (%d -> %d)", op, before, c.Uint()),
+				map[string]string{"oracle": "idle-call", "op": "idle", "mode": "seq"})
+
+			return "diverge"
+		}
+	}
+	c.SetUint(c.Uint() + (n - real)) // SetUint truncates to the counter's width: the arithmetic of n-real increments
+
+	return "ok"
 }
 
 // ---- subscribers ----------------------------------------------------------------------------------------------
@@ -286,6 +370,20 @@ func (w *seqWorld) exec1(r *hx.Run, op string, f []string, arg func(int) string,
 		w.subs[i].dead = true
 
 		return "ok"
+	case "uid":
+		c, ok := uidCounter(w.obj())
+		if !ok {
+			return "no-counter"
+		}
+
+		return strconv.FormatUint(c.Uint(), 10)
+	case "idle":
+		n, err := strconv.ParseUint(arg(1), 10, 64)
+		if w.kind != "set" || err != nil {
+			return "bad-op"
+		}
+
+		return w.idle(r, op, n)
 	}
 	switch w.kind {
 	case "set":
@@ -482,8 +580,13 @@ func genSeqCase(rng *hx.Rng, n int) []string {
 				ops = append(ops, "replace-view")
 			case x < 78:
 				ops = append(ops, "replace "+genSubset(rng, 5))
-			case x < 93:
+			case x < 91:
 				ops = append(ops, subOrUnsub())
+			case x < 93:
+				// calls without effect, also as many as it takes to wrap a counter of 8 / 16 / 32 bits
+				ops = append(ops, fmt.Sprintf("idle %d", hx.Pick(rng, []uint64{1, 2, 3, 21, 255, 256, 65535, 65536, 4294967295, 4294967295, 4294967296})))
+			case x < 96:
+				ops = append(ops, "uid")
 			default:
 				ops = append(ops, "state")
 			}
@@ -500,6 +603,8 @@ func genSeqCase(rng *hx.Rng, n int) []string {
 				ops = append(ops, fmt.Sprintf("defaultto %d", rng.Intn(5)))
 			case x < 90:
 				ops = append(ops, subOrUnsub())
+			case x < 94:
+				ops = append(ops, "uid")
 			default:
 				ops = append(ops, "state")
 			}
@@ -517,12 +622,14 @@ func genSeqCase(rng *hx.Rng, n int) []string {
 				ops = append(ops, "ontrigger")
 			case x < 85:
 				ops = append(ops, subOrUnsub())
+			case x < 92:
+				ops = append(ops, "uid")
 			default:
 				ops = append(ops, "state")
 			}
 		}
 	}
-	ops = append(ops, "state")
+	ops = append(ops, "uid", "state")
 
 	return ops
 }
